@@ -361,7 +361,13 @@ class World:
             args += ["-h", f]
         args += list(flags)
         for s in sf or ():
-            args += ["-sf", self.abs(s)]
+            sp = self.abs(s)
+            if spell in ("dot", "rel") and cwd is not None:
+                # with a relative root the files are named relative to the working directory, too
+                sp = os.path.relpath(sp, cwd)
+                if sp.startswith("-"):
+                    sp = "./" + sp
+            args += ["-sf", sp]
         args += list(extra)
         roots_before = self.history_roots()
         root = root.rstrip("/") if len(root) > 1 else root
